@@ -327,6 +327,31 @@ def run(run):
                 break
             prev = cur
     run.traces += n_hist
+    # ---- a screen whose separation matrix has more than a million entries (512 pixels, one stencil row): the same two identities, on
+    #      the matrices the object holds, against the covariance evaluated independently at the true pixel separations
+    for nbig, ncol, prm in ((512, 1, (0.05, 0.2, 50.0)),) if quick else ((512, 1, (0.05, 0.2, 50.0)), (400, 2, (0.1, 0.15, 30.0))):
+        try:
+            big = ips.PhaseScreenVonKarman(nbig, prm[0], prm[1], prm[2], random_seed=2, n_columns=ncol)
+        except Exception as ex:  # noqa - these configurations DO construct on a correct covariance (positive definite to 1e-8 of its scale)
+            run.violation("vk:construction-refused:more-than-a-million-separations", dict(nx=nbig, n_columns=ncol, params=list(prm), error=repr(ex)[:160]),
+                          dict(kind="large", n=nbig, ncol=ncol, prm=list(prm)))
+            continue
+        Zc = np.asarray(big.stencil_coords, float)
+        Xc = np.asarray(big.X_coords, float)
+        pts = np.vstack([Zc, Xc]) * prm[0]
+        d = np.sqrt(((pts[:, None, :] - pts[None, :, :]) ** 2).sum(-1))
+        C = cov_vk(d, prm[1], prm[2])
+        nz = len(Zc)
+        A, Bm = np.asarray(big.A_mat, float), np.asarray(big.B_mat, float)
+        Czz, Cxx, Cxz = C[:nz, :nz], C[nz:, nz:], C[nz:, :nz]
+        innov = np.abs(Cxx - Cxz.dot(np.linalg.solve(Czz, Cxz.T))).max()
+        rA = np.abs(A.dot(Czz) - Cxz).max()
+        rB = np.abs(A.dot(Czz).dot(A.T) + Bm.dot(Bm.T) - Cxx).max()
+        run.traces += 1
+        run.aux.setdefault("large_screens", []).append(dict(nx=nbig, n_columns=ncol, res_A_over_innovation=float(rA / innov), res_B_over_innovation=float(rB / innov)))
+        if rA > 1e-5 * innov or rB > 1e-5 * innov:
+            run.violation("vk:%s-identity:more-than-a-million-separations" % ("A" if rA > 1e-5 * innov else "B"),
+                          dict(nx=nbig, n_columns=ncol, res_A_over_innovation=float(rA / innov), res_B_over_innovation=float(rB / innov)), dict(kind="large", n=nbig, ncol=ncol, prm=list(prm)))
     # ---- the set-up protocol (spec/ObjProtocol.tla): whatever order the public set-up methods and parameter assignments come in, every
     #      matrix is the one of the parameter version the model says it was computed from (so the law the rows follow is known)
     from harness import protocol
